@@ -28,7 +28,7 @@ from .source import SourceModel
 from .symval import (SymObj, ClassVal, PropertyVal, Closure, BoundMethod, ModuleVal, Builtin,
                      Raised, Phi, Vec, SymRaise, exc_matches, to_expr, merge, _alg, _MISSING)
 
-MAX_DEPTH = 12
+MAX_DEPTH = 60
 
 
 class State:
@@ -357,7 +357,7 @@ class Interp:
             is_gen = any(isinstance(n, (ast.Yield, ast.YieldFrom)) for n in _walk_fn(node))
             if is_gen:
                 frame.vars["$yield"] = []
-            live = self.exec_block(node.body, frame, sp.true)
+            live = self.exec_block(node.body, frame, sp.true) is not False
             if is_gen:
                 from .symval import GenVal
                 return GenVal(frame.vars["$yield"])
@@ -399,6 +399,9 @@ class Interp:
                 raise AnalysisError(f"while loop does not terminate within the budget in {frame.qual}")
             n0 = len(frame.exits)
             live = self.exec_block(st.body, frame, pc)
+            if live is not True and live is not False:
+                pc = live if pc is sp.true else sp.And(pc, live)
+                live = True
             new = frame.exits[n0:]
             lx = [x for x in new if x[0] in ("continue", "break")]
             if lx:
@@ -536,12 +539,18 @@ class Interp:
             cattrs[q] = d
         return out_fr, heap, cattrs
 
-    def exec_block(self, stmts, frame, pc) -> bool:
-        """Execute statements; return False when every path left the block."""
+    def exec_block(self, stmts, frame, pc):
+        """Execute statements.  Returns False when every path left the block, True when execution continues,
+        or a condition c when it continues only on the paths where c holds (an earlier branch returned or raised)."""
+        extra = None
         for st in stmts:
-            if not self.exec_stmt(st, frame, pc):
+            r = self.exec_stmt(st, frame, pc)
+            if r is False:
                 return False
-        return True
+            if r is not True and r is not None:
+                pc = r if pc is sp.true else sp.And(pc, r)
+                extra = r if extra is None else sp.And(extra, r)
+        return True if extra is None else extra
 
     def exec_stmt(self, st, frame, pc) -> bool:
         if isinstance(st, ast.Expr):
@@ -567,6 +576,12 @@ class Interp:
             if isinstance(cur, list) and isinstance(st.op, ast.Add):
                 cur.extend(list(rhs))
                 return True
+            if isinstance(cur, Vec):
+                # numpy arrays are updated in place (a row view stays a view of its table)
+                res = self.lib.binop(self, st.op, cur, rhs)
+                if isinstance(res, Vec) and len(res) == len(cur):
+                    cur.items[:] = res.items
+                    return True
             # Formula.__iadd__ and friends
             if isinstance(cur, SymObj) and cur.cls is not None:
                 nm = {ast.Add: "__iadd__", ast.Mult: "__imul__"}.get(type(st.op))
@@ -678,14 +693,16 @@ class Interp:
         self.restore(snap0)
         nc = sp.Not(c)
         live2 = self.exec_block(st.orelse, frame, sp.And(pc, nc) if pc is not sp.true else nc)
-        if live1 and live2:
+        if live1 is not False and live2 is not False:
             snap2 = self.snapshot(frame)
             self.restore(self.merge_states(c, snap1, snap2))
             return True
-        if live1:
+        if live1 is not False:
             self.restore(snap1)
-            return True
-        return live2
+            return c if live1 is True else sp.And(c, live1)
+        if live2 is False:
+            return False
+        return nc if live2 is True else sp.And(nc, live2)
 
     def exec_for(self, st, frame, pc, it=_MISSING):
         if it is _MISSING:
@@ -723,6 +740,9 @@ class Interp:
             self.assign(st.target, item, frame)
             n0 = len(frame.exits)
             live = self.exec_block(st.body, frame, cur_pc)
+            if live is not True and live is not False:
+                cur_pc = live if cur_pc is sp.true else sp.And(cur_pc, live)
+                live = True
             new = frame.exits[n0:]
             del frame.exits[n0:]
             frame.exits.extend(x for x in new if x[0] not in ("continue", "break"))
@@ -755,7 +775,7 @@ class Interp:
 
     def exec_try(self, st, frame, pc):
         try:
-            live = self.exec_block(st.body, frame, pc)
+            live = self.exec_block(st.body, frame, pc) is not False
         except SymRaise as e:
             for h in st.handlers:
                 hn = None
@@ -770,15 +790,15 @@ class Interp:
                     # side effects made before the exception stay (Python does not roll them back)
                     if h.name:
                         frame.vars[h.name] = self.new_obj(f"<exc {e.exc}>")
-                    live = self.exec_block(h.body, frame, pc)
+                    live = self.exec_block(h.body, frame, pc) is not False
                     break
             else:
                 raise
         else:
             if st.orelse and live:
-                live = self.exec_block(st.orelse, frame, pc)
+                live = self.exec_block(st.orelse, frame, pc) is not False
         if st.finalbody and live:
-            live = self.exec_block(st.finalbody, frame, pc)
+            live = self.exec_block(st.finalbody, frame, pc) is not False
         return live
 
     def assign(self, target, value, frame):
